@@ -161,6 +161,52 @@ pub fn case_strategy(tier: Tier) -> BoxedStrategy<Case> {
         .boxed()
 }
 
+/// every token at edit distance one from a supported algorithm name or from "Size" (insertion and
+/// substitution with - _ . digits and letters, deletion, transposition), as the keyword of a line
+/// between two recognised lines of the same file and alone on a file of its own
+fn enumerate_near_keywords(_t: Tier) -> Box<dyn Iterator<Item = Case>> {
+    const CH: &[u8] = b"-_.0123456789abcdefghijklmnopqrstuvwxyzS";
+    let mut words = std::collections::BTreeSet::new();
+    for name in ["BLAKE2s", "MD5", "RMD160", "SHA1", "SHA256", "SHA512", "Size"] {
+        let b = name.as_bytes();
+        for i in 0..=b.len() {
+            for c in CH {
+                let mut w = b.to_vec();
+                w.insert(i, *c);
+                words.insert(w);
+                if i < b.len() {
+                    let mut w = b.to_vec();
+                    w[i] = *c;
+                    words.insert(w);
+                }
+            }
+            if i < b.len() {
+                let mut w = b.to_vec();
+                w.remove(i);
+                words.insert(w);
+            }
+            if i + 1 < b.len() {
+                let mut w = b.to_vec();
+                w.swap(i, i + 1);
+                words.insert(w);
+            }
+        }
+    }
+    Box::new(words.into_iter().filter(|w| !w.is_empty()).map(|w| {
+        let line = |name: &str, value: &str| -> B { B([w.clone(), format!(" ({}) = {}", name, value).into_bytes()].concat()) };
+        Case {
+            lines: vec![
+                B(b"SHA1 (f.tgz) = 00aa".to_vec()),
+                line("f.tgz", "11bb"),
+                B(b"Size (f.tgz) = 7 bytes".to_vec()),
+                line("g.tgz", "22 bytes"),
+                B(b"MD5 (f.tgz) = 33cc".to_vec()),
+            ],
+            final_newline: true,
+        }
+    }))
+}
+
 /// lines that are not of the two recognised shapes but that a liberal parser may still take
 /// (right keyword, parenthesised name, a value, but something other than '=' in between)
 fn liberal_shape(line: &[u8]) -> bool {
@@ -341,6 +387,7 @@ pub fn property() -> Property {
         ],
         streams: vec![
             random_stream("texts", "interleaved checksum/size lines mixed with noise", case_strategy, |t| t.pick(80_000, 4_000_000), check),
+            enumerated_stream("near-keywords", "every token at edit distance one from an algorithm name or 'Size' as the keyword of a line", enumerate_near_keywords, check),
             random_stream("names", "patch / distfile classification of generated names", name_strategy, |t| t.pick(40_000, 2_000_000), check_name), crate::fuzz::replay_stream()],
         selfcheck: m::selfcheck,
         hang_is_violation: false,
